@@ -75,7 +75,7 @@ type run struct {
 	outReached   chan struct{}
 	outRelease   chan struct{}
 	kick         chan struct{} // wakes the asynchronous context killer
-	onces        [8]sync.Once
+	onces        [16]sync.Once
 
 	// family inflight
 	genHold      chan struct{}
@@ -104,6 +104,8 @@ type run struct {
 	genSent       atomic.Int32 // sends of the generator that were received
 	genReturned   atomic.Bool  // the generator function has returned (or panicked)
 	ctxDoneAtCall atomic.Bool  // ctx.Err() != nil immediately before the call was made
+
+	parkState // family genpark (genpark_test.go)
 }
 
 func newRun(c *kit.Case, id string, p plan) *run {
@@ -116,6 +118,7 @@ func newRun(c *kit.Case, id string, p plan) *run {
 		reduced: make([]int32, (p.Items+1)*fanStride),
 		moreHit: make([]atomic.Int32, len(p.More)),
 	}
+	r.initPark()
 	return r
 }
 
@@ -179,6 +182,9 @@ func (r *run) doPanic(by string) {
 // It returns true when the user function must return immediately.
 func (r *run) point(role string, idx int, phase string, cancel func(error)) bool {
 	here := pos{role, idx, phase}
+	if r.p.Park != nil && role == roleRed && r.parkRed(idx, phase, cancel) {
+		return true
+	}
 	if (r.p.Ctx == ctxAt || r.p.Ctx == ctxAtAsync) && r.p.CtxPos == here && r.ctxHit.CompareAndSwap(0, 1) {
 		if r.p.Ctx == ctxAt {
 			r.endCtx()
@@ -274,6 +280,10 @@ func (r *run) genSend(source chan<- int, i int) bool {
 
 func (r *run) ufGen(source chan<- int) {
 	defer r.genReturned.Store(true)
+	if r.p.Park != nil {
+		r.genParked(source)
+		return
+	}
 	for i := 0; i < r.p.Items; i++ {
 		if r.point(roleGen, i, phBefore, nil) {
 			return
@@ -303,6 +313,9 @@ func (r *run) mapBody(item int, w mr.Writer[int], cancel func(error)) {
 	}
 	if r.p.Barrier {
 		r.linger()
+	}
+	if r.p.Park != nil && r.parkMap(item, cancel) {
+		return
 	}
 	if r.point(roleMap, item, phBefore, cancel) {
 		return
